@@ -51,6 +51,37 @@ def elem51 (k : Lane) (l : List Int) : List Int :=
 /-- value of the `k`-th `FieldElement51` -/
 def val51 (k : Lane) (l : List Int) : ZMod P := ((Dalek.Proofs.Field51.rep51 (elem51 k l) : Int) : ZMod P)
 
+/-! ### the documented bounds as interval vectors (`Dalek.Model.Contracts.Avx2Field.lanes num den`: even limbs
+`< 2^26 · num/den`, odd limbs `< 2^25 · num/den`) -/
+open Dalek.Model.Contracts in
+/-- `b < 0.0002` (`2^0.0002 = 1.000138…`): post-condition documented for `new`, `reduce`, `neg` -/
+def b0002 : List Dalek.IR.Itv := Avx2Field.lanes 10001 10000
+open Dalek.Model.Contracts in
+/-- `b < 0.007` (`2^0.007 = 1.004863…`): post-condition documented for `mul`, `square_and_negate_D`, `mul_consts`,
+`reduce64` -/
+def b007 : List Dalek.IR.Itv := Avx2Field.lanes 10048 10000
+open Dalek.Model.Contracts in
+/-- `b < 1` : post-condition documented for `negate_lazy` -/
+def b1 : List Dalek.IR.Itv := Avx2Field.lanes 2 1
+open Dalek.Model.Contracts in
+/-- `b < 1.6` (`2^1.6 = 3.0314…`): post-condition documented for `diff_sum` -/
+def b16 : List Dalek.IR.Itv := Avx2Field.lanes 3031 1000
+
+/-! ### the same notions on vectors of naturals (the values the programs compute with) -/
+/-- the ten limbs of element `k` of a vector of 40 u32 lanes -/
+def vecLimbs (k : Lane) (v : List Nat) : List Int := lane k (Dalek.IR.toZ v)
+/-- value of element `k` of a vector of 40 u32 lanes -/
+def vecVal (k : Lane) (v : List Nat) : ZMod P := laneVal k (Dalek.IR.toZ v)
+/-- value of element `k` of ten wide coefficient vectors (40 u64 lanes, argument of `reduce64`) -/
+def wideVal (k : Lane) (z : List Nat) : ZMod P := laneVal64 k (Dalek.IR.toZ z)
+/-- value of the `k`-th of four `FieldElement51` (20 u64 limbs) -/
+def elemVal (k : Lane) (l : List Nat) : ZMod P := val51 k (Dalek.IR.toZ l)
+
+theorem vecVal_eq_limbs (k : Lane) (v : List Nat) : vecVal k v = ((rep26 (vecLimbs k v) : Int) : ZMod P) := rfl
+
+theorem toZ_injective : Function.Injective Dalek.IR.toZ :=
+  List.map_injective_iff.mpr (fun _ _ h => Int.ofNat.inj h)
+
 open Lean Elab Tactic Meta in
 /-- List literals with more than 32 elements are elaborated with auxiliary `let`s; `lets_to_eqs` turns those into
 equations `hL_i : l = a :: b :: … :: l'` between lists.  Substitute them away again. -/
